@@ -57,22 +57,21 @@ try:
     rc, out = sh("cargo test --offline --test seed_demo 2>&1 | tail -8", cwd=wt)
     res["demo_passes_without_change"] = ("test result: ok" in out) and ("FAILED" not in out)
     res["demo_without_change_tail"] = out[-300:]
+    # our checks, against the scratch worktree with the change applied (never /repo)
+    use = src + ("/patch.ported.diff" if os.path.exists(src + "/patch.ported.diff") else "/patch.diff")
+    checks = {}
+    sh("git checkout -- . && git clean -fdq -e target", cwd=wt)
+    rc, out = sh("git apply %s" % use, cwd=wt)
+    cenv = "VERIF_REPO=%s VERIF_EVIDENCE_DIR=/tmp/seed_evidence VERIF_REPLAY_DIR=/tmp/seed_replays" % wt
+    for p in [prop] + extra:
+        rc, out = sh("cd /verif && %s ./check %s --tier quick" % (cenv, p), timeout=1800)
+        lines = [l for l in out.splitlines() if l.startswith(("VIOLATION", "UNDECIDED", "KNOWN-FINDING", "property="))]
+        checks[p] = {"exit": rc, "lines": [l[:300] for l in lines if not l.startswith("KNOWN-FINDING")]}
 finally:
     sh("git -C /repo worktree remove --force %s" % wt)
     shutil.rmtree(wt, ignore_errors=True)
 confirmed = res.get("suite_passes_with_change") and res.get("demo_fails_with_change") and res.get("demo_passes_without_change")
 res["confirmed"] = bool(confirmed)
-# our checks
-checks = {}
-use = src + ("/patch.ported.diff" if os.path.exists(src + "/patch.ported.diff") else "/patch.diff")
-rc, out = sh("git -C /repo apply %s" % use)
-try:
-    for p in [prop] + extra:
-        rc, out = sh("cd /verif && VERIF_EVIDENCE_DIR=/tmp/seed_evidence VERIF_REPLAY_DIR=/tmp/seed_replays ./check %s --tier quick" % p, timeout=1200)
-        lines = [l for l in out.splitlines() if l.startswith(("VIOLATION", "UNDECIDED", "KNOWN-FINDING", "property="))]
-        checks[p] = {"exit": rc, "lines": [l[:300] for l in lines if not l.startswith("KNOWN-FINDING")]}
-finally:
-    sh("git -C /repo checkout -- .")
 res["checks"] = checks
 res["caught_by"] = [p for p, c in checks.items() if c["exit"] == 1]
 d = "/verif/seeded/%s-%s%s" % (prop, n, wave)
@@ -84,7 +83,7 @@ if confirmed:
     shutil.copy(src + "/demo.rs", d + "/demo.rs")
     meta = {"property": prop, "summary": agent_meta.get("summary"), "needs_to_manifest": agent_meta.get("needs_to_manifest"),
             "what_was_run": {"confirmation": "scratch worktree of /repo HEAD: git apply patch.diff; cargo nextest run (82 tests) -> %s; cargo test --test seed_demo -> fails; git checkout -- src; cargo test --test seed_demo -> passes" % res.get("suite_with_change"),
-                             "checks": "git -C /repo apply patch.diff; ./check <P> --tier quick; git -C /repo checkout -- ."},
+                             "checks": "scratch worktree of /repo HEAD with patch.diff applied; VERIF_REPO=<worktree> ./check <P> --tier quick (equivalent to: git -C /repo apply patch.diff; ./check <P>; git -C /repo checkout -- .)"},
             "check_results": checks, "caught_by": res["caught_by"], "written_by": "independent sub-agent given only the property text",
             "note": ("patch.diff is the agent's change re-applied to the current /repo HEAD (fix: commits moved the context); the agent's own diff is patch.original.diff" if use.endswith("ported.diff") else "")}
     json.dump(meta, open(d + "/meta.json", "w"), indent=1)
